@@ -7,6 +7,7 @@ from fractions import Fraction
 
 from hypothesis import strategies as st
 
+from cpverif import core
 from cpverif import spec as S
 from cpverif.core import Ctx, Part, custom_part, enum_part, h64, hyp_part
 from cpverif.lib import L
@@ -386,6 +387,21 @@ def check_e2e(ctx: Ctx, case) -> None:
         spec["song"] = [list(x) for x in case["song"]] + [["Resolution", str(case["res"])]]
         spec["tracks"] = {"ExpertSingle": [[0, "N", 0, 0]]}
     text = S.render(spec)
+    k = core.h64(text)
+    if k % 4 == 0 and len(sync) >= 2:
+        # lines that are no sync lines (junk, lines of other sections, blank lines) between the sync lines: every
+        # B / TS / A line is still decoded, whatever stands before it
+        junk = ["garbage", "", "  ", "// tempo map", '0 = E "section x"', "0 = N 0 0", "0 = B", "0 = TS", "B 120000",
+                "0 = A", "0 = H 1 2"]
+        body = [S.sync_line(x) for x in sync]
+        out = []
+        for i, ln in enumerate(body):
+            if (k >> (3 + i % 40)) & 3 == 0:
+                for j in range(1 + (k >> (7 + i % 30)) % 3):
+                    out.append(junk[(k >> (11 + (i + j) % 20)) % len(junk)])
+            out.append(ln)
+        text = text.replace("".join("  " + ln + "\n" for ln in body), "".join("  " + ln + "\n" for ln in out), 1)
+        ctx.classes["e2e_junk_between_sync_lines"] += 1
     excluded = [n for _, n in bpms if _split_decode_differs(n)]
     try:
         chart = L.parse(text)
